@@ -181,7 +181,16 @@ fn oracle(m: &RLib, ctx: &mut Ctx) -> Result<(), String> {
     Ok(())
 }
 fn main_case(src: &mut Src, ctx: &mut Ctx) -> Result<(), String> {
-    let m = gen_rawlib(src, &opts());
+    let mut m = gen_rawlib(src, &opts());
+    // a net name may be the empty string: the shape is named all the same
+    if src.prob(1, 10) {
+        let named: Vec<(usize, usize)> = m.cells.iter().enumerate().flat_map(|(ci, c)| c.shapes.iter().enumerate().filter(|(_, s)| s.net.is_some()).map(move |(si, _)| (ci, si))).collect();
+        if !named.is_empty() {
+            let (ci, si) = named[src.index(named.len())];
+            m.cells[ci].shapes[si].net = Some(String::new());
+            ctx.label("a shape whose net name is empty");
+        }
+    }
     oracle(&m, ctx)
 }
 /// Deep hierarchies: a chain of 30-200 cells, each instantiating the one below, listed top-down, bottom-up or
@@ -192,7 +201,7 @@ fn deep_case(src: &mut Src, ctx: &mut Ctx) -> Result<(), String> {
     oracle(&m, ctx)
 }
 fn run(run: &mut Run) {
-    run.rule("G-rawlib layout libraries: 1-5 cells forming a DAG in shuffled listing order, instances in all eight orientations (angle None vs Some(0)), rectangles with any corner order, histogram / U-shaped / 45-degree / star polygons, Manhattan paths, nets in mixed case, 1-5 layers with Drawing/Label/Pin/Obstruction/Other/Named purposes and arbitrary numbers, all four units; own shapes of a cell in disjoint windows. Oracle: export succeeds, exported paths and labels checked directly on the GDSII (exact geometry), re-import equal per cell as multisets. Non-trivial = named polygon with bounding-box centre outside, a path, or a non-identity instance; distinct by hash of the model.");
+    run.rule("G-rawlib layout libraries: 1-5 cells forming a DAG in shuffled listing order, instances in all eight orientations (angle None vs Some(0)), rectangles with any corner order, histogram / U-shaped / 45-degree / star polygons, Manhattan paths, nets in mixed case (now and then the empty name), 1-5 layers with Drawing/Label/Pin/Obstruction/Other/Named purposes and arbitrary numbers, all four units; own shapes of a cell in disjoint windows. Oracle: export succeeds, exported paths and labels checked directly on the GDSII (exact geometry), re-import equal per cell as multisets. Non-trivial = named polygon with bounding-box centre outside, a path, or a non-identity instance; distinct by hash of the model.");
     run.assume("cell order, rectangle corner order, rectangle-shaped polygons coming back as rectangles, None vs Some(0) angles, annotations (not exported) and instance names are not compared");
     run.assume("'No valid label location' for a library containing a named non-rectilinear polygon is the documented refusal");
     run.min_nontrivial = 200;
